@@ -1447,10 +1447,17 @@ impl Harness {
         // `finalize_block` silently drops txs failing with a fatal error.  To be able to report
         // why, first execute the txs the same way on the working state and throw that state away.
         let (dry_run_errors, deposits) = chain.dry_run(names, height, &checked).await;
+        // A tx failing with a non-fatal error stays in the block (with an error result): the real
+        // proposer (`prepare_proposal`) generates the commitments over ALL txs it includes, that
+        // one too.
         let committed: Vec<Arc<CheckedTransaction>> = checked
             .iter()
             .zip(&dry_run_errors)
-            .filter(|(_, error)| error.is_none())
+            .filter(|(_, error)| {
+                error
+                    .as_ref()
+                    .is_none_or(|text| text.contains("(non-fatal)"))
+            })
             .map(|(tx, _)| tx.clone())
             .collect();
 
@@ -1516,7 +1523,13 @@ impl Harness {
                 let next_is_failure = user_results
                     .get(result_index)
                     .is_some_and(|result| result.code.is_err());
-                if next_is_failure {
+                // The dry run tells the two apart: only a `NonFatalExecution` error (whose text
+                // says so) leaves a result behind.  Without dry-run information assign greedily.
+                let non_fatal_in_dry_run = match dry_run_errors.get(index) {
+                    Some(Some(text)) => text.contains("(non-fatal)"),
+                    _ => true,
+                };
+                if next_is_failure && non_fatal_in_dry_run {
                     let code = user_results[result_index].code.value();
                     result_index += 1;
                     lines[*position] = format!("txres {id} code={code}");
